@@ -25,6 +25,12 @@ OPS = [
     (r"One::one\(\)", "Zero::zero()"), (r"Zero::zero\(\)", "One::one()"),
     (r"cancellation\.cancel_walk_tree\(\);", "let _ = cancellation;"),
     (r"lhs\.finalize\(\)", "lhs.1"), (r"rhs\.finalize\(\)", "rhs.1"),
+    (r"has_ending_", "has_starting_"), (r"has_starting_", "has_ending_"), (r"_boundary\(", "_zom("), (r"_zom\(", "_boundary("),
+    (r"When::or\b", "When::certainty"), (r"When::certainty\b", "When::or"), (r"When::Sometimes", "When::Always"),
+    (r"if left\.is_none\(\)", "if left.is_some()"), (r"\(left\)", "(right)"), (r"\(right\)", "(left)"),
+    (r"Composition::Conjunctive\(_\) => 1,", "Composition::Conjunctive(_) => 2,"), (r"\.take\(n\)", ".skip(n)"), (r"saturating_sub\(1\)", "saturating_sub(2)"),
+    (r"AdjacentBoundary", "AdjacentZeroOrMore"), (r"SingularTree", "SingularZeroOrMore"),
+    (r"has_root: true", "has_root: false"), (r"Separator\(_\)", "Wildcard(Tree { .. })"),
 ]
 TARGETS = [
     ("src/token/variance/natural.rs", 206, 335, ["C10", "C09"]),
@@ -53,6 +59,11 @@ TARGETS = [
     ("src/token/mod.rs", 1535, 1560, ["C12"]),
     ("src/capture.rs", 12, 24, ["C19"]),
     ("src/token/parse.rs", 82, 92, ["C17"]),
+    ("src/rule.rs", 516, 560, ["C06"]),
+    ("src/rule.rs", 568, 810, ["C06"]),
+    ("src/token/mod.rs", 508, 546, ["C12"]),
+    ("src/token/mod.rs", 194, 200, ["C17"]),
+    ("src/token/walk.rs", 436, 467, ["C12", "C06"]),
 ]
 
 def sh(cmd, cwd=None, env=None, timeout=7200):
